@@ -27,6 +27,11 @@ reg(Spec(
 
 TRACKER_OVERLAY = {"processors/auditd/sessiontracker/verif_export.go": "harness/overlay/sessiontracker_verif.go"}
 TRACKER_ASSUME = [
+    "every correlator call (and every state dump) of the sequential, exhaustive and concurrent stages runs under a watchdog: a call that has not returned after 10 s "
+    "(VERIF_CALL_BOUND_MS) is reported as an oracle failure with the history / schedule and log level as replay, and the (poisoned) harness process stops exploring",
+    "audit events carry generated values in the fields the correlator does not need (kernel serial: zero / increasing / equal / decreasing / wrapping through 2^32 / late "
+    "lower-numbered / arbitrary; record timestamps before, around and after the wall clock; old-ses, old-auid, auid, tty, terminal, ppid, exe, addr naming other sessions, "
+    "pids and users of the history); the model's event is (id, session, type, pid) and the case-file encoding carries nothing else",
     "logins and audit events are identified by ids; identity content and rendering are functions of (login, event) (Model/ToEvent.v, C14)",
     "Go's random map iteration order in RemoteLogin's scan is the model's choice argument; a step corresponds if some choice reproduces it",
     "time.Now() inside the correlator is bracketed by the harness' own clock readings (cut-offs always fall between two calls)",
@@ -58,14 +63,21 @@ CONC_ASSUME = ("concurrent stage: the sequential model applies to the daemon bec
 
 
 def exh_extra(pid, len_quick=4, len_thorough=6):
-    """Exhaustive small-scope stage: every history up to a length bound over a 12-symbol alphabet on the real
-    correlator, judged by the property's oracle; an evenly spaced subset replayed against the Coq model."""
-    return [("tracker", TRACKER_OVERLAY, ["-mode", "exh", "-prop", pid, "-len", str(len_thorough), "-coq", "3000"], False,
-             ["-mode", "exh", "-prop", pid, "-len", str(len_quick), "-coq", "300"])]
+    """Exhaustive small-scope stage: every history up to a length bound over small alphabets (two sessions + a cron-like one,
+    the LOGIN record of session 2 also in the variant whose old-ses names session 1; for C09 / C16 also ONE pid logging in
+    twice and opening two sessions, cut-offs at the call and one operation earlier) on the real correlator, judged by the
+    property's oracle; an evenly spaced subset replayed against the Coq model."""
+    return [("tracker", TRACKER_OVERLAY, ["-mode", "exh", "-prop", pid, "-len", str(len_thorough), "-xlen", str(len_thorough), "-coq", "3000"], False,
+             ["-mode", "exh", "-prop", pid, "-len", str(len_quick), "-xlen", str(len_quick + 1), "-coq", "300"])]
 
 
 EXH_ASSUME = ("exhaustive stage: every history of length <= 4 (quick) / 6 (thorough) over {login, LOGIN record, record, disposal record of two "
-              "sessions; a cron-like session; both cleanups} with each login / LOGIN record at most once, on the real correlator")
+              "sessions; a cron-like session; both cleanups; the LOGIN record of session 2 in a second variant whose old-ses names session 1} with each "
+              "login / LOGIN record at most once, the records' serials all zero / descending / wrapping through 2^32 / all equal in turn; C09 and C16 "
+              "also every history of length <= 5 / 6 over ONE sshd pid {its login, a second login of that pid, the records of its session, LOGIN record "
+              "and record of a later session opened by the same pid, both cleanups with the cut-off at the call and one operation earlier}, the sessions' "
+              "logins derived from the history alone (latest waiting login of a pid wins; a login arriving while two login-less sessions of its pid "
+              "are open is not judged); on the real correlator")
 
 
 def tracker(pid, n_quick=160, n_thorough=3000):
